@@ -136,6 +136,7 @@ pub fn classify(b: &[u8]) -> HttpClass {
         }
     }
     // header lines until the empty line
+    let mut header_lines = 0usize;
     loop {
         if i >= b.len() {
             return HttpClass::Incomplete;
@@ -167,6 +168,13 @@ pub fn classify(b: &[u8]) -> HttpClass {
             if b[j] == b':' {
                 return HttpClass::DontCare("folded-header-line");
             }
+            if header_lines > 0 {
+                // behind a header line HTTP reads such a line as the continuation of that header's
+                // value (a fold): whether the statement's "header line" is the physical or the
+                // logical line is open - what is not open is that the answer is the same under
+                // every segmentation (C11)
+                return HttpClass::DontCare("folded-continuation-line");
+            }
             return HttpClass::Malformed("header-without-colon");
         }
         let mut colon = false;
@@ -191,6 +199,7 @@ pub fn classify(b: &[u8]) -> HttpClass {
             }
             if let Some(n) = eol(b, i) {
                 i += n;
+                header_lines += 1;
                 break;
             }
             if b[i] == b'\r' {
